@@ -422,6 +422,46 @@ def pipeline_item(job):
     return {"n": len(rxns), "bad": bad}
 
 
+MAPPED_BALANCED = "[CH3:1][C:2](=[O:3])[O:4][CH2:5][CH3:6].[OH2:7]>>[CH3:1][C:2](=[O:3])[OH:4].[CH3:6][CH2:5][OH:7]"
+
+
+def large_batch_item(job):
+    """one batch of n mapped (already balanced) reactions through a Balancer that is told to use
+    several workers; the controlled joblib seam decides what a worker shares with its caller
+    (inline = threads / n_jobs=1 semantics, task = pickled copies as in a process pool)"""
+    import re as _re
+
+    from synrbl import Balancer
+
+    from mc import seams
+
+    n, iso = job
+    key = "large-batch-balancer"
+    if key not in _CACHE:
+        _CACHE[key] = Balancer(n_jobs=2)
+    b = _CACHE[key]
+    rxns = [MAPPED_BALANCED] * n
+    ctl = seams.Controller(isolation=iso)
+    with seams.controlled(ctl):
+        rows = b.rebalance(list(rxns), output_dict=True)
+    bad = []
+    if len(rows) != n:
+        bad.append({"key": ["pipeline", "row-count"], "what": "{} rows for a batch of {} (isolation {})".format(len(rows), n, iso)})
+    for i, row in enumerate(rows):
+        for col in ("reaction", "input_reaction"):
+            v = row.get(col) or ""
+            if _re.search(r"\[[^\]]*:\d+\]", v):
+                bad.append({"key": ["pipeline", "map-survives", col, "large-batch"],
+                            "what": "batch of {} rows, n_jobs=2, isolation {}: row {} column {} still carries atom maps".format(n, iso, i, col)})
+                break
+        if bad:
+            break
+    return {"n": n, "bad": bad}
+
+
+_CACHE = {}
+
+
 # --------------------------------------------------------------------------- driver
 
 
@@ -480,6 +520,12 @@ def run(tier, seed):
     for job, r in zip(pjobs, pres):
         for b in r["bad"]:
             pipe_bad.setdefault(repr(b["key"]), []).append((job, b))
+    ljobs = [(n, iso) for n in (2, 63, 64, 65, 127, 128, 129, 255, 256, 257, 300) for iso in ("inline", "task")]
+    lres = pmap("checks.c15:large_batch_item", ljobs, chunk=1, seed=seed, timeout=7200)
+    pres = list(pres) + list(lres)
+    for job, r in zip(ljobs, lres):
+        for b in r["bad"]:
+            pipe_bad.setdefault(repr(b["key"]), []).append(((("large",) + tuple(job), None), b))
 
     all_groups = {}
     for name in sorted(families):
@@ -543,12 +589,15 @@ def run(tier, seed):
         "RDKit's parser, valence model (closed-shell = no radical electron) and canonical "
         "SMILES (isomeric, taken to its re-read fixpoint) decide molecule identity",
         "the clause 'rebalancing outputs never contain atom-map numbers' is checked on every ordered batch of "
-        "1..3 rows over {unmapped, mapped, unmapped with bracket atoms, mapped MCS-path} x batch sizes",
+        "1..3 rows over {unmapped, mapped, unmapped with bracket atoms, mapped MCS-path} x batch sizes, and on single batches of 2..300 mapped rows with several workers under inline and pickled-argument isolation",
     ]
     return res
 
 
 def replay(v):
+    if v.sub == "pipeline" and v.case["seq"][:1] == ["large"]:
+        r = large_batch_item((v.case["seq"][1], v.case["seq"][2]))
+        return [Violation(v.sub, v.case, None, None, b["key"], b["what"]) for b in r["bad"] if b["key"] == v.key][:1]
     if v.sub == "pipeline":
         r = pipeline_item((tuple(v.case["seq"]), v.case["bs"]))
         return [Violation(v.sub, v.case, None, None, b["key"], b["what"]) for b in r["bad"] if b["key"] == v.key][:1]
